@@ -6,10 +6,16 @@ from common import R, Rvec, Cx, fl, cfl, ModelError
 
 from common import wiring_pre_build as pre_build  # noqa: E402,F401
 
-LEAN_MODULES = ["PyomaVerif.Props.C06", "PyomaVerif.Mutants.C06", "PyomaVerif.Props.WiringMpe", "PyomaVerif.Props.C06C13", "PyomaVerif.Props.C06Faithful"]
+LEAN_MODULES = ["PyomaVerif.Props.C06", "PyomaVerif.Mutants.C06", "PyomaVerif.Props.WiringMpe", "PyomaVerif.Props.C06C13", "PyomaVerif.Props.C06Faithful", "PyomaVerif.Props.WiringStore", "PyomaVerif.Props.WiringClass", "PyomaVerif.Props.WiringCalls"]
 THEOREMS = [
     # call-site wiring of the class layer, regenerated from /repo on every run (translate_wiring.py)
     "PV.WiringMpe.C06_fdd_mpe_wiring",
+    "PV.WiringStore.C06_run_result_store",
+    "PV.WiringClass.C06_inherited",
+    "PV.WiringCalls.C13_fdd_run_calls",
+    "PV.WiringCalls.C04_ms_run_calls",
+    "PV.WiringCalls.C06_mpe_calls",
+    "PV.WiringMpe.C06_mpe_stores_exact",
     "PV.C06.C06_band_limits",
     "PV.C06.pickIdx_spec",
     "PV.C06.C06_pick",
